@@ -5,6 +5,7 @@ import (
 	"compress/flate"
 	"compress/zlib"
 	"fmt"
+	"io"
 	"math/rand"
 
 	"github.com/andybalholm/brotli"
@@ -173,4 +174,64 @@ func pickNot[T comparable](rg *rand.Rand, pool []T, not map[T]bool) (T, bool) {
 		return zero, false
 	}
 	return cands[rg.Intn(len(cands))], true
+}
+
+// decompressAll is the reference decompression (whole stream, until EOF) used to decide
+// what a possibly corrupted CompressedCertificate really encodes.
+func decompressAll(alg uint16, comp []byte) ([]byte, error) {
+	switch alg {
+	case algZlib:
+		zr, err := zlib.NewReader(bytes.NewReader(comp))
+		if err != nil {
+			return nil, err
+		}
+		defer zr.Close()
+		return io.ReadAll(io.LimitReader(zr, 1<<25))
+	case algBrotli:
+		return io.ReadAll(io.LimitReader(brotli.NewReader(bytes.NewReader(comp)), 1<<25))
+	case algZstd:
+		zr, err := zstd.NewReader(bytes.NewReader(comp), zstd.WithDecoderConcurrency(1))
+		if err != nil {
+			return nil, err
+		}
+		defer zr.Close()
+		return io.ReadAll(io.LimitReader(zr, 1<<25))
+	}
+	return nil, fmt.Errorf("unknown algorithm")
+}
+
+// certListOf parses a TLS 1.3 Certificate message body into its DER certificates.
+func certListOf(body []byte) ([][]byte, bool) {
+	if len(body) < 1 {
+		return nil, false
+	}
+	ctxLen := int(body[0])
+	if len(body) < 1+ctxLen+3 {
+		return nil, false
+	}
+	b := body[1+ctxLen:]
+	l := int(b[0])<<16 | int(b[1])<<8 | int(b[2])
+	b = b[3:]
+	if l != len(b) {
+		return nil, false
+	}
+	var out [][]byte
+	for len(b) > 0 {
+		if len(b) < 3 {
+			return nil, false
+		}
+		n := int(b[0])<<16 | int(b[1])<<8 | int(b[2])
+		b = b[3:]
+		if len(b) < n+2 {
+			return nil, false
+		}
+		out = append(out, b[:n])
+		b = b[n:]
+		el := int(b[0])<<8 | int(b[1])
+		if len(b) < 2+el {
+			return nil, false
+		}
+		b = b[2+el:]
+	}
+	return out, true
 }
